@@ -169,6 +169,9 @@ def run(ctx) -> None:
     ctx.rule("C16.R11-serialisation-is-injective", "_memoization_info_to_hash separates the keys and values it concatenates (a delimiter, a length "
              "prefix, or a structured dump): without one, different (executable, arguments) pairs serialise to the same text")
     ctx.rule("C16.R12-no-hash-stays-no-hash", "the public hash properties post-process a computed hash (prefix, join, format) only when it is not None")
+    ctx.rule("C16.R13-one-entry-per-consumed-file", "the 'files' ingredient of the hashed information has one entry per consumed file: it is built as a "
+             "list over the consumed files and never passes through a set (or dict keys): two distinct files with identical contents, consumed "
+             "through the same method, are two entries - a component that consumes one of them is different work")
     ctx.rule("C16.R9-own-executable", "the executable that is hashed is the component's own, after variable substitution: the configuration "
              "is fetched with raw=False, for the component's own name - shortened only by the replica index of the component and only "
              "when that name is not itself a component of the unreplicated description (never by stripping characters off the name)")
@@ -415,6 +418,22 @@ def run(ctx) -> None:
                 "every reference is replaced as a whole, so the processing order is immaterial") if ok else
                "references are substituted in an order that is not longest-first and not as whole references: the relative spelling "
                "can be replaced inside an absolute one", construct=short(s.call, 80) + " <- order-independent")
+
+    # ---------------- R13: multiplicity of the consumed files ----------------------------------------------
+    files_vals = [v for d_ in ast.walk(fn) if isinstance(d_, ast.Dict) for (k, v) in zip(d_.keys, d_.values)
+                  if isinstance(k, ast.Constant) and k.value == "files"]
+    ctx.floor("C16.R13-one-entry-per-consumed-file", len(files_vals), 1, "'files' entries of the hashed information")
+    for v in files_vals:
+        chain = [v] + ([x for x in match.assigned_value(fn, v.id)] if isinstance(v, ast.Name) else [])
+        dedup = [x for c_ in chain for x in ast.walk(c_) if isinstance(x, (ast.SetComp, ast.Set, ast.DictComp))
+                 or (isinstance(x, ast.Call) and (call_name(x) or "").split(".")[-1] in ("set", "frozenset", "fromkeys", "unique"))]
+        ok = not dedup
+        ctx.ob("C16.R13-one-entry-per-consumed-file", v, ok,
+               "the consumed files are listed one entry per file" if ok else
+               "the 'files' ingredient passes through %s: two distinct consumed files with byte-identical contents and the same method collapse "
+               "into one entry, so a component that stages d1.txt and one that stages d1.txt AND the identical d2.txt get the same strong and "
+               "fuzzy hash - can_memoize would reuse the outputs of different work" % short(dedup[0], 40),
+               construct="'files': one entry per consumed file")
 
     # ---------------- R10: both spellings of one reference ---------------------------------------------
     def member_test(t: ast.AST, attr: str) -> Optional[str]:
